@@ -20,6 +20,8 @@ import (
 )
 
 func (x *Exec) loadRepo(repo string) error {
+	x.repoDir = repo
+	witnessRepo = repo
 	cfg := &packages.Config{Mode: packages.LoadAllSyntax, Dir: repo, BuildFlags: []string{"-tags=verif"},
 		Env: append(os.Environ(), "GOFLAGS=-mod=mod", "GOPROXY=off", "GOSUMDB=off", "GOTOOLCHAIN=local")}
 	pkgs, err := packages.Load(cfg, "./...")
